@@ -14,7 +14,7 @@ import json
 
 import vf
 
-DEVS = ["Dev_TickerInterval", "Dev_NoSessionCheck", "Dev_NilSession", "Dev_UnknownItem", "Dev_BlockedFanout"]
+DEVS = ["Dev_TickerInterval", "Dev_NoSessionCheck", "Dev_NilSession", "Dev_UnknownItem", "Dev_BlockedFanout", "Dev_EndedSubFanout"]
 ALLSVC = "{}"
 STATEFUL = ('{"CreateSubscription","CreateMonitoredItems","SetMonitoringMode","DeleteMonitoredItems","DeleteSubscriptions",'
             '"CloseSession","Publish","Read","Browse","Write","ActivateSession"}')
